@@ -22,6 +22,8 @@ ASSUMPTIONS = [
     "cases whose intermediate |log10 factor| exceeds 280 are discarded (float range), counted",
 ]
 NT_FLOOR = 0.3
+# coverage-guided complement (sv/fuzz.py): strategy -> number of cases
+FUZZ = {"quick": {"valid": 1000}, "thorough": {"valid": 30000, "reject": 15000}}
 EXTRA_COVERAGE = {"exhaustive_subdomains": ["all <letter a-zA-Z>+<admissible atom> strings", "all <prefix>+<symbol> pairs",
                                             "all admissible single atoms"],
                   "atom_dictionary_size": len(R.ATOM), "ambiguous_atom_texts": sorted(R.AMBIGUOUS)}
